@@ -29,7 +29,7 @@ def sig3(a, digits=6):
 
 DEGEN_KINDS = ["zero_col", "zero_col_last", "dup_col", "const_col", "zero_y", "const_y",
                "one_feature", "scale_1e6", "scale_1e-6", "zero_group", "n_lt_p", "scale_1e9",
-               "scale_1e-9"]
+               "scale_1e-9", "zero_row"]
 
 
 def gen_X(rng, n, p, rho=None, density=None, scale_decades=None):
@@ -124,6 +124,11 @@ def apply_degen(rng, X, y, kind, degen):
         j = int(rng.integers(p))
         X[:, j] *= 1e-6
         info["col"] = j
+    elif degen == "zero_row" and n >= 3:
+        # a sample without any feature: an all-zero column of the SVC dual design
+        i = int(rng.integers(n))
+        X[i, :] = 0
+        info["row"] = i
     elif degen in ("scale_1e9", "scale_1e-9"):
         j = int(rng.integers(p))
         X[:, j] *= 1e9 if degen == "scale_1e9" else 1e-9
